@@ -95,6 +95,7 @@ fn main() {
             std::fs::create_dir_all(&root).unwrap();
             start_watchdog(arg_after(&args, "--hang-ms").and_then(|s| s.parse().ok()).unwrap_or(60000));
             let mut n = net::Net::new(root.into());
+            n.fast_fail = arg_after(&args, "--fast-fail").and_then(|s| s.parse().ok()).unwrap_or(0);
             run_lines(|toks| n.step(toks));
         }
         _ => {
